@@ -24,7 +24,7 @@ META = re.compile(r"[<>&\"']")
 
 
 def strategy(tier):
-    P = dict(gen.PROFILES["broad"], settings="some")
+    P = dict(gen.PROFILES["broad"], settings="some", p_attr_override=0.08, p_tag_names=0.04)
     return st.builds(lambda f, pretty: {"form": f, "pretty": pretty}, gen.form_strategy(P), st.booleans())
 
 
